@@ -58,10 +58,15 @@ EXPORT = ["tree_to_dataframe", "tree_to_polars", "tree_to_dict", "tree_to_nested
 TREEFN = ["node_copy", "deepcopy", "shallow_copy", "clone_tree", "get_subtree", "prune_tree",
           "get_tree_diff_first", "get_tree_diff_second",
           "copy_nodes_from_tree_to_tree", "copy_and_replace_nodes_from_tree_to_tree"]
-ALL_FNS = RENDER + ITERS + SEARCH + EXPORT + TREEFN
+TREEFN2 = ["copy_nodes"]
+DAG_READ = ["dag_iterator", "dag_to_list", "dag_to_dot", "dag_ancestors", "dag_descendants", "dag_siblings", "dag_go_to"]
+DAG_EXPORT = ["dag_to_dict", "dag_to_dataframe"]
+DAG_COPY = ["dag_copy", "dag_deepcopy", "dag_shallow_copy"]
+DAG_FNS = DAG_READ + DAG_EXPORT + DAG_COPY
+ALL_FNS = RENDER + ITERS + SEARCH + EXPORT + TREEFN + TREEFN2 + DAG_FNS
 NODE_ONLY = {"show", "hshow", "tree_to_newick", "tree_to_mermaid", "tree_to_dot", "find_relative_path",
              "find_relative_paths", "get_tree_diff_first", "get_tree_diff_second",
-             "copy_nodes_from_tree_to_tree", "copy_and_replace_nodes_from_tree_to_tree"}
+             "copy_nodes_from_tree_to_tree", "copy_and_replace_nodes_from_tree_to_tree", "copy_nodes"}
 BINARY_ONLY = {"inorder_iter"}
 
 SEPS = ["/", "\\", "-", ".", "|"]
@@ -87,6 +92,13 @@ def _build(cls, spec, sep="/"):
     """spec: list of [parent index or None, name, attrs dict, slot]; indices are pre-order."""
     bt = _bt()
     nodes = []
+    if cls == "DAGNode":
+        for pars, name, attrs, slot in spec:
+            nodes.append(bt.DAGNode(name, **json.loads(json.dumps(attrs))))
+        for i, (pars, name, attrs, slot) in enumerate(spec):
+            if pars:
+                nodes[i].parents = [nodes[q] for q in pars]
+        return nodes
     for i, (par, name, attrs, slot) in enumerate(spec):
         attrs = json.loads(json.dumps(attrs))         # every case gets its own value objects
         if cls == "BinaryNode":
@@ -135,8 +147,10 @@ def _canon(v, depth=0):
 
 
 class Ctx:
-    def __init__(self, nodes):
+    def __init__(self, nodes, dag=False, roots=None):
         self.nodes = nodes
+        self.dag = dag
+        self.roots = roots if roots is not None else nodes[:1]
         self.n = len(nodes)
         self.nid = {id(x): i for i, x in enumerate(nodes)}
         self.keep = list(nodes)
@@ -208,11 +222,24 @@ def _priv(x):
         d = vars(x)
     except TypeError:
         return None, None, False
-    pk = [k for k in d if isinstance(k, str) and k.endswith("__parent")]
+    pk = [k for k in d if isinstance(k, str) and (k.endswith("__parent") or k.endswith("__parents"))]
     ck = [k for k in d if isinstance(k, str) and k.endswith("__children")]
     if len(pk) == 1 and len(ck) == 1 and isinstance(d[ck[0]], list):
         return d[pk[0]], d[ck[0]], True
     return None, None, False
+
+
+def _plist(v):
+    """a private parent field as a list of parents"""
+    if v is None:
+        return []
+    return list(v) if isinstance(v, (list, tuple)) else [v]
+
+
+def _priv_lists(x):
+    """the list objects held by the private link fields"""
+    pp, pc, has = _priv(x)
+    return ([pc] + ([pp] if isinstance(pp, list) else [])) if has else []
 
 
 def _attrs(ctx, x):
@@ -237,19 +264,30 @@ def _parent(x):
         return _ERR
 
 
+def _parents(ctx_dag, x):
+    """public parents as a list: [parent] / [] for tree nodes, parents for DAG nodes"""
+    if ctx_dag:
+        try:
+            return list(x.parents)
+        except Exception:
+            return [_ERR]
+    p = _parent(x)
+    return [] if p is None else [p]
+
+
 def _entry(ctx, x):
-    par = ctx.opt(_parent(x))
+    pars = [ctx.node_id(q) for q in _parents(ctx.dag, x)]
     kids = [ctx.opt(c) for c in _children(x)]
     pp, pc, has = _priv(x)
     pv = None
     kl = 0
     if has:
-        ppar = ctx.opt(pp)
+        ppars = [ctx.node_id(q) for q in _plist(pp)]
         pkids = [ctx.opt(c) for c in pc]
         kl = ctx.addr(pc)
-        if ppar != par or pkids != kids:
-            pv = [ppar, pkids]
-    return {"p": par, "k": kids, "nm": _name(x), "a": _attrs(ctx, x), "pv": pv, "kl": kl}
+        if ppars != pars or pkids != kids:
+            pv = [ppars, pkids]
+    return {"p": pars, "k": kids, "nm": _name(x), "a": _attrs(ctx, x), "pv": pv, "kl": kl}
 
 
 def _walk(ctx):
@@ -268,7 +306,8 @@ def _walk(ctx):
         for c in _children(x):
             if c is not None:
                 rec(c)
-    rec(ctx.nodes[0])
+    for r in ctx.roots:
+        rec(r)
     return out
 
 
@@ -279,9 +318,8 @@ def snapshot(ctx):
 def input_objs(ctx):
     lists, vals = [], []
     for x in ctx.nodes:
-        pp, pc, has = _priv(x)
-        if has:
-            lists.append(ctx.addr(pc))
+        for l in _priv_lists(x):
+            lists.append(ctx.addr(l))
         for v in _pub(x).values():
             ctx.deep(v, vals)
     return lists, vals
@@ -326,24 +364,42 @@ def _top_of(r):
         x = p
 
 
-def result_view(ctx, r):
+def result_view(ctx, r, own=False):
     top, up = _top_of(r)
     members = _rt_nodes(top)
-    if not any(m is r for m in members):
+    if own or not any(m is r for m in members):
         top = r                       # the returned node is not reachable from its own root: view it by itself
     tree = _rt(ctx, top, set(), [400])
     return {"t": tree, "ret": ctx.node_id(r), "up": [ctx.node_id(u) for u in up]}, top
 
 
-def result_objs(ctx, top):
+def result_objs(ctx, top, members=None):
     lists, vals = [], []
-    for x in _rt_nodes(top):
-        pp, pc, has = _priv(x)
-        if has:
-            lists.append(ctx.addr(pc))
+    for x in (members if members is not None else _rt_nodes(top)):
+        for l in _priv_lists(x):
+            lists.append(ctx.addr(l))
         for v in _pub(x).values():
             ctx.deep(v, vals)
     return lists, vals
+
+
+def dag_members(r, closure=True):
+    """the nodes of a returned DAG: everything linked to r through parents and children"""
+    out, seen, todo = [], set(), [r]
+    while todo and len(out) < 200:
+        x = todo.pop(0)
+        if id(x) in seen or not hasattr(x, "children"):
+            continue
+        seen.add(id(x))
+        out.append(x)
+        if closure:
+            todo.extend(q for q in _parents(True, x) if q is not _ERR)
+            todo.extend(c for c in _children(x) if c is not None and c is not _ERR)
+    return out
+
+
+def dres_view(ctx, members):
+    return [[ctx.node_id(x), _entry(ctx, x)] for x in members]
 
 
 # ---------------------------------------------------------------------------------------------
@@ -413,6 +469,51 @@ def mutate_nodes(side, ints, tag):
     # and always: the last node of the side is detached, the first node loses its children
     last = side[-1]
     attempt(lambda: setattr(last, "parent", None))
+    if r3 % 2:
+        def g():
+            del side[0].children
+        attempt(g)
+
+
+def mutate_dag(side, ints, tag):
+    """DAGNode sides: parents / children assignments instead of the single parent"""
+    m = len(side)
+    if not m:
+        return
+    r0, r1, r2, r3 = ints
+
+    def attempt(f):
+        try:
+            f()
+        except Exception:
+            pass
+
+    for x in side:
+        for v in list(_pub(x).values()):
+            attempt(lambda v=v: _mut_deep(v))
+    x = side[r0 % m]
+    attempt(lambda: setattr(x, "name", "zz" + tag))
+    y = side[r1 % m]
+    attempt(lambda: setattr(y, "age", 12345))
+    attempt(lambda: setattr(y, "fresh_" + tag, [7]))
+    z = side[r2 % m]
+    attempt(lambda: setattr(type(z)("n" + tag), "parents", [z]))
+    attempt(lambda: setattr(type(z)("m" + tag), "children", [z]))
+    kind = r3 % 4
+    c = side[(r3 // 5) % m]
+    d = side[(r3 // 7 + 1) % m]
+    if kind == 0:
+        attempt(lambda: setattr(c, "parents", [d]))
+    elif kind == 1:
+        attempt(lambda: setattr(c, "parents", []))
+    elif kind == 2:
+        def f():
+            del c.children
+        attempt(f)
+    else:
+        attempt(lambda: setattr(c, "children", [d]))
+    last = side[-1]
+    attempt(lambda: setattr(last, "parents", []))
     if r3 % 2:
         def g():
             del side[0].children
@@ -587,14 +688,51 @@ def _call(case, nodes, aux):
     if fn == "copy_and_replace_nodes_from_tree_to_tree":
         modify.copy_and_replace_nodes_from_tree_to_tree(nodes[0], aux[0], **o)
         return "tree_inplace", aux[0]
+    if fn == "copy_nodes":
+        # nodes = the subtree that is copied; aux = [root of the whole tree]
+        modify.copy_nodes(aux[0], **o)
+        hit = [x for x in search.find_full_path(aux[0], o["to_paths"][0]) and [search.find_full_path(aux[0], o["to_paths"][0])] or []]
+        return "tree_own", (hit[0] if hit else None)
+    if fn in DAG_FNS:
+        from bigtree.dag import export as dexport
+        if fn == "dag_iterator":
+            return "nodes", flat(list(iterators.dag_iterator(t)))
+        if fn == "dag_to_list":
+            return "reader", dexport.dag_to_list(t)
+        if fn == "dag_to_dot":
+            return "reader", dexport.dag_to_dot(t, **o).to_string()
+        if fn == "dag_ancestors":
+            return "nodes", list(t.ancestors)
+        if fn == "dag_descendants":
+            return "nodes", list(t.descendants)
+        if fn == "dag_siblings":
+            return "nodes", list(t.siblings)
+        if fn == "dag_go_to":
+            return "nodes", flat(t.go_to(nodes[case["target"]]))
+        if fn in ("dag_to_dict", "dag_to_dataframe"):
+            return "data", getattr(dexport, fn)(t, **o)
+        if fn == "dag_copy":
+            return "dag", t.copy()
+        if fn == "dag_deepcopy":
+            return "dag", _copy.deepcopy(t)
+        if fn == "dag_shallow_copy":
+            return "dag_one", _copy.copy(t)
     raise ValueError(fn)
 
 
 def run_impl(prop, case):
     cls = case["cls"]
+    dag = cls == "DAGNode"
     nodes = _build(cls, case["tree"], case.get("sep", "/"))
     aux = _build("Node", case["tree2"], case.get("sep2", "/")) if case.get("tree2") else []
-    ctx = Ctx(nodes)
+    roots = [x for x, sp in zip(nodes, case["tree"]) if not sp[0]] if dag else None
+    if case["fn"] == "copy_nodes":
+        # the whole tree is built; the *input* is the subtree that gets copied (ids 0..n-1), every other
+        # node of the tree is a foreign object (id >= n)
+        aux = [nodes[0]]
+        sub = case["sub"]
+        nodes = [nodes[i] for i in sub]
+    ctx = Ctx(nodes, dag=dag, roots=roots)
     ctx.keep.append(aux)
     before = snapshot(ctx)
     in_lists, in_vals = input_objs(ctx)
@@ -611,6 +749,7 @@ def run_impl(prop, case):
     obs = {"code": code, "kind": kind if code == 0 else "raised", "n": ctx.n, "before": before, "after": after,
            "in_lists": in_lists, "in_vals": in_vals, "out_lists": [], "out_vals": [],
            "ret_nodes": None, "result": None, "after_mr": None, "res1": None, "res2": None, "data": None,
+           "dres": None, "dres12": None,
            "sep_changed": getattr(nodes[0], "_sep", None) != sep_before}
     m1, m2 = case["mut_res"], case["mut_in"]
     if code != 0:
@@ -623,10 +762,19 @@ def run_impl(prop, case):
         mutate_data(value)
         obs["after_mr"] = snapshot(ctx)
         d1 = data_code(ctx, value)
-        mutate_nodes(list(nodes), m2, "i")
+        (mutate_dag if dag else mutate_nodes)(list(nodes), m2, "i")
         obs["data"] = [d1, data_code(ctx, value)]
-    elif kind in ("tree", "tree_inplace") and value is not None and hasattr(value, "children"):
-        view, top = result_view(ctx, value)
+    elif kind in ("dag", "dag_one") and value is not None:
+        members = dag_members(value, closure=(kind == "dag"))
+        obs["dres"] = [dres_view(ctx, members), ctx.node_id(value)]
+        obs["out_lists"], obs["out_vals"] = result_objs(ctx, None, members)
+        mutate_dag(members, m1, "r")
+        obs["after_mr"] = snapshot(ctx)
+        d1 = dres_view(ctx, members)
+        mutate_dag(list(nodes), m2, "i")
+        obs["dres12"] = [d1, dres_view(ctx, members)]
+    elif kind in ("tree", "tree_inplace", "tree_own") and value is not None and hasattr(value, "children"):
+        view, top = result_view(ctx, value, own=(kind == "tree_own"))
         obs["result"] = view
         obs["out_lists"], obs["out_vals"] = result_objs(ctx, top)
         side = _rt_nodes(top)
